@@ -8,6 +8,7 @@ import (
 	"encoding/json"
 	"fmt"
 	"os"
+	"time"
 )
 
 type Op map[string]interface{}
@@ -57,13 +58,30 @@ func main() {
 		if err := dec.Decode(&op); err != nil {
 			break
 		}
-		res := runOp(op)
+		// every op has its own watchdogs; this one is the last resort for a call that blocks in the kernel (an open of a FIFO ...):
+		// the op is answered as hung and the process ends (the runner re-runs the remaining ops in a fresh process)
+		ch := make(chan map[string]interface{}, 1)
+		go func(op Op) { ch <- runOp(op) }(op)
+		var res map[string]interface{}
+		hung := false
+		select {
+		case res = <-ch:
+		case <-time.After(opDeadline):
+			res = map[string]interface{}{"hung": "the operation did not return within " + opDeadline.String(), "stacks": fsutilStacks()}
+			hung = true
+		}
 		b, _ := json.Marshal(res)
 		out.Write(b)
 		out.WriteByte('\n')
 		out.Flush()
+		if hung {
+			os.Exit(71)
+		}
 	}
 }
+
+// opDeadline: far above what the slowest generated op needs (the widest schedule cases take tens of seconds under load)
+const opDeadline = 10 * time.Minute
 
 func runOp(op Op) (res map[string]interface{}) {
 	defer func() {
